@@ -88,6 +88,8 @@ Definition py_sorted_nums (l : list Q) : list Q := isort Qleb l.
 Definition py_nat (x : Q) : nat := Z.to_nat (Qfloor x).
 Definition py_range (n : Q) : list Q := map Qnat (seq 0 (py_nat n)).              (* range(n) *)
 Definition py_enumerate {A} (l : list A) : list (Q * A) := combine (map Qnat (seq 0 (length l))) l.
+(* xs * n: the list repeated n times *)
+Definition py_repeat {A} (l : list A) (n : Q) : list A := concat (repeat l (py_nat n)).
 (* itertools.combinations(s, r) in itertools order (Base/ListExt.v), chain.from_iterable *)
 Definition py_combinations {A} (l : list A) (r : Q) : list (list A) := combs l (py_nat r).
 Definition py_chain {A} (l : list (list A)) : list A := concat l.
